@@ -340,6 +340,10 @@ def run_check(pid: str, tier: str, base_seed: int, runs: Optional[int], jobs: in
     except Exception as e:  # worker death / timeout
         harness_errors.append("pool: %s: %s" % (type(e).__name__, e))
     results.sort(key=lambda r: r["i"])
+    slow = sorted((r for r in results if float(r.get("wall") or 0.0) > 30.0), key=lambda r: -float(r["wall"]))[:3]
+    for r in slow:
+        print("note: slow run i=%d seed=%d took %.0f s (a run is abandoned after VERIF_RUN_TIMEOUT_S=%s)" % (
+            r["i"], r["seed"], float(r["wall"]), os.environ.get("VERIF_RUN_TIMEOUT_S", "120")))
     if len(results) != n and not harness_errors:
         harness_errors.append("only %d of %d runs returned" % (len(results), n))
 
